@@ -1,4 +1,5 @@
 import NomtModel.Store.WalkerSimMoves
+import NomtModel.Store.WalkerTreeLog
 /-!
 # `compact_step`, the loop of `compact_up`, `compact_up` of the mirror against the tree walker
 -/
@@ -7,6 +8,13 @@ open Nomt Nomt.TriePos
 open Nomt.Wal (PageDiff)
 
 variable {Node VH : Type} [DecidableEq Node] [DecidableEq VH] (H : Hasher Node VH) (ps : PageSet Node)
+
+/-- what a reconstructor's walk needs from outside (the simulation itself knows nothing about the keys): whenever the log of the
+tree walker after leaving a page is a prefix of `Lfin`, the page left is small enough to be elided.  Discharged from the facts
+about the final log (`Store/WalkerReconSmall.lean`); vacuous for a walker that is not a reconstructor. -/
+def SmallBy (Lfin : List (PageId × Store Node)) : Prop :=
+  ∀ (w1 : Walker Node) (a1 : TW Node), Sim H ps w1 a1 → w1.reconstruction = true → dip a1.pos = 1 →
+    a1.up.log <+: Lfin → SmallTop H w1
 
 /-- jumping to the sibling position (same page) -/
 theorem sim_sibling {w : Walker Node} {a : TW Node} (h : Sim H ps w a) (hd : 6 * k0 w.parentPage < a.pos.length) :
@@ -21,7 +29,7 @@ theorem sim_sibling {w : Walker Node} {a : TW Node} (h : Sim H ps w a) (hd : 6 *
     rw [hp'path, h.pos]
     rw [h.pos] at hpath
     conv => rhs; rw [hpath, sibPath_snoc]
-  refine ⟨hp'wf, hsp, h.root, ?_, ?_, h.chain, h.pages, h.counters, h.norecon, h.cpr, h.outs, h.nofix, h.diffs⟩
+  refine ⟨hp'wf, hsp, h.root, ?_, ?_, h.chain, h.pages, h.counters, h.recon.cast H rfl rfl rfl rfl rfl, h.cpr, h.outs, h.nofix, h.diffs⟩
   · show w.stack = [] ↔ (sibPath a.pos).length ≤ _
     rw [sibPath_length]; exact h.stackE
   · intro sp rest e
@@ -64,7 +72,7 @@ theorem sim_compactStep {w : Walker Node} {a : TW Node} (h : Sim H ps w a) (hd :
 theorem sim_other_fields {w : Walker Node} {a : TW Node} (h : Sim H ps w a) (ss : List (Node × Nat)) (pn : Option Node)
     (lp : Option Pos) :
     Sim H ps ({ w with siblingStack := ss, prevNode := pn, lastPosition := lp } : Walker Node) a :=
-  ⟨h.wf, h.pos, h.root, h.stackE, h.stackT, h.chain, h.pages, h.counters, h.norecon, h.cpr, h.outs, h.nofix, h.diffs⟩
+  ⟨h.wf, h.pos, h.root, h.stackE, h.stackT, h.chain, h.pages, h.counters, h.recon.cast H rfl rfl rfl rfl rfl, h.cpr, h.outs, h.nofix, h.diffs⟩
 
 theorem sim_stackEmpty {w : Walker Node} {a : TW Node} (h : Sim H ps w a) :
     w.stack.isEmpty = a.stackEmpty (cfgOf H ps w.parentPage) := by
@@ -82,17 +90,19 @@ theorem sim_stackEmpty {w : Walker Node} {a : TW Node} (h : Sim H ps w a) :
     simp [this]
 
 /-- the loop of `compact_up` -/
-theorem sim_compactLoop : ∀ (n i layers : Nat) (w : Walker Node) (a : TW Node), Sim H ps w a →
+theorem sim_compactLoop (Lfin : List (PageId × Store Node)) :
+    ∀ (n i layers : Nat) (w : Walker Node) (a : TW Node), Sim H ps w a →
     (n = 0 ∨ 6 * k0 w.parentPage < a.pos.length) →
+    (w.reconstruction = true → SmallBy H ps Lfin ∧ (TW.compactLoop H (cfgOf H ps w.parentPage) n a).log <+: Lfin) →
     ∃ w', Walker.compactLoop H n i layers w = .ok w' ∧
       Sim H ps w' (TW.compactLoop H (cfgOf H ps w.parentPage) n a) ∧ Same w w' := by
   intro n
   induction n with
   | zero =>
-    intro i layers w a h _
+    intro i layers w a h _ _
     exact ⟨w, rfl, h, Same.rfl' _⟩
   | succ n ih =>
-    intro i layers w a h hd
+    intro i layers w a h hd hfin
     have hd : 6 * k0 w.parentPage < a.pos.length := by
       rcases hd with h0 | h0
       · cases h0
@@ -100,7 +110,12 @@ theorem sim_compactLoop : ∀ (n i layers : Nat) (w : Walker Node) (a : TW Node)
     obtain ⟨w1, hw1, hs1, hsame1, hcpr1, hroot1⟩ := sim_compactStep H ps h hd
     have hd1 : 6 * k0 w1.parentPage < (a.compactStep H).2.pos.length := by
       rw [hsame1.1, tw_compactStep_pos_length]; exact hd
-    obtain ⟨w2, hw2, hs2, hsame2, hcpr2, hroot2⟩ := sim_up H ps hs1 hd1
+    obtain ⟨w2, hw2, hs2, hsame2, hcpr2, hroot2⟩ := sim_up H ps hs1 hd1 (by
+      intro hr hdip
+      have hr0 : w.reconstruction = true := by rw [← hsame1.2.2.2.2]; exact hr
+      obtain ⟨hsb, hpre⟩ := hfin hr0
+      exact hsb w1 _ hs1 hr hdip
+        (List.IsPrefix.trans (tw_compactLoop_round_prefix H (cfgOf H ps w.parentPage) n a) hpre))
     have hpar2 : w2.parentPage = w.parentPage := hsame2.1.trans hsame1.1
     rw [tw_compactLoop_succ]
     simp only [Walker.compactLoop]
@@ -132,7 +147,7 @@ theorem sim_compactLoop : ∀ (n i layers : Nat) (w : Walker Node) (a : TW Node)
           simp [k0] at hposle
           exact hposle
         refine ⟨_, rfl, ?_, hsameAll _ rfl rfl rfl rfl rfl⟩
-        refine ⟨hs2.wf, hs2.pos, ?_, hs2.stackE, hs2.stackT, hs2.chain, ?_, hs2.counters, hs2.norecon, hs2.cpr, hs2.outs, hs2.nofix, hs2.diffs⟩
+        refine ⟨hs2.wf, hs2.pos, ?_, hs2.stackE, hs2.stackT, hs2.chain, ?_, hs2.counters, hs2.recon.cast H rfl rfl rfl rfl rfl, hs2.cpr, hs2.outs, hs2.nofix, hs2.diffs⟩
         · simp [TW.setNode, hnil, upd_same]
         · intro sp hsp
           have : w2.stack = [] := List.isEmpty_iff.mp hempty
@@ -145,7 +160,7 @@ theorem sim_compactLoop : ∀ (n i layers : Nat) (w : Walker Node) (a : TW Node)
         have hnp : (cfgOf H ps w.parentPage).hasParent = true := by simp [cfgOf, hpp']
         rw [if_pos hnp, if_neg hpn]
         refine ⟨_, rfl, ?_, hsameAll _ rfl rfl rfl rfl rfl⟩
-        refine ⟨hs2.wf, hs2.pos, hs2.root, hs2.stackE, hs2.stackT, hs2.chain, hs2.pages, hs2.counters, hs2.norecon, ?_, hs2.outs, hs2.nofix, hs2.diffs⟩
+        refine ⟨hs2.wf, hs2.pos, hs2.root, hs2.stackE, hs2.stackT, hs2.chain, hs2.pages, hs2.counters, hs2.recon.cast H rfl rfl rfl rfl rfl, ?_, hs2.outs, hs2.nofix, hs2.diffs⟩
         simp only [List.map_append, List.map_cons, List.map_nil]
         rw [hs2.cpr, hs2.pos]
     · have hse' : ¬ ((a.compactStep H).2.up).stackEmpty (cfgOf H ps w.parentPage) = true := by
@@ -174,13 +189,24 @@ theorem sim_compactLoop : ∀ (n i layers : Nat) (w : Walker Node) (a : TW Node)
       have hpar4 : w4.parentPage = w.parentPage := hsame4.1.trans (hsame3.1.trans hpar2)
       obtain ⟨w5, hw5, hs5, hsame5⟩ := ih (i + 1) layers w4 _ hs4 (Or.inr (by
         show 6 * k0 w4.parentPage < ((a.compactStep H).2.up).pos.length
-        rw [hsame4.1]; exact hd3))
+        rw [hsame4.1]; exact hd3)) (by
+          intro hr
+          have hr0 : w.reconstruction = true := by
+            rw [← hsame1.2.2.2.2, ← hsame2.2.2.2.2, ← hsame3.2.2.2.2, ← hsame4.2.2.2.2]; exact hr
+          obtain ⟨hsb, hpre⟩ := hfin hr0
+          refine ⟨hsb, ?_⟩
+          rw [hpar4]
+          rw [tw_compactLoop_succ, if_neg hse'] at hpre
+          exact hpre)
       rw [hpar4] at hs5
       exact ⟨w5, hw5, hs5, Same.trans' (Same.trans' (Same.trans' (Same.trans' hsame1 hsame2) hsame3) hsame4) hsame5⟩
 
 /-- `compact_up` -/
 theorem sim_compactUp {w : Walker Node} {a : TW Node} (h : Sim H ps w a) (target : Option Pos)
-    (hok : ∀ t, target = some t → 6 * k0 w.parentPage < a.pos.length → sharedBits a.pos t.path + 1 ≤ a.pos.length) :
+    (hok : ∀ t, target = some t → 6 * k0 w.parentPage < a.pos.length → sharedBits a.pos t.path + 1 ≤ a.pos.length)
+    (Lfin : List (PageId × Store Node))
+    (hfin : w.reconstruction = true → SmallBy H ps Lfin ∧
+      (a.compactUp H (cfgOf H ps w.parentPage) (target.map (·.path))).log <+: Lfin) :
     ∃ w', w.compactUp H target = .ok w' ∧
       Sim H ps w' (a.compactUp H (cfgOf H ps w.parentPage) (target.map (·.path))) ∧ Same w w' := by
   unfold Walker.compactUp TW.compactUp
@@ -201,9 +227,15 @@ theorem sim_compactUp {w : Walker Node} {a : TW Node} (h : Sim H ps w a) (target
     | none =>
       simp only [Option.map_none]
       rw [hdep]
-      obtain ⟨w', hw', hs', hsame⟩ := sim_compactLoop H ps a.pos.length 0 a.pos.length
+      obtain ⟨w', hw', hs', hsame⟩ := sim_compactLoop H ps Lfin a.pos.length 0 a.pos.length
         ({ w with siblingStack := [] } : Walker Node) a (sim_other_fields H ps h [] w.prevNode w.lastPosition)
-        (Or.inr hd)
+        (Or.inr hd) (by
+          intro hr
+          obtain ⟨hsb, hpre⟩ := hfin hr
+          refine ⟨hsb, ?_⟩
+          unfold TW.compactUp at hpre
+          rw [if_neg hse'] at hpre
+          exact hpre)
       exact ⟨w', hw', hs', hsame⟩
     | some t =>
       simp only [Option.map_some]
@@ -222,11 +254,17 @@ theorem sim_compactUp {w : Walker Node} {a : TW Node} (h : Sim H ps w a) (target
           simp only
           exact ⟨_, rfl, sim_other_fields H ps h _ none w.lastPosition, Same.rfl' _⟩
       · rw [if_neg hl0]
-        obtain ⟨w', hw', hs', hsame⟩ := sim_compactLoop H ps (a.pos.length - (sharedBits a.pos t.path + 1)) 0
+        obtain ⟨w', hw', hs', hsame⟩ := sim_compactLoop H ps Lfin (a.pos.length - (sharedBits a.pos t.path + 1)) 0
           (a.pos.length - (sharedBits a.pos t.path + 1))
           ({ w with siblingStack := w.siblingStack.takeWhile (fun s => decide (s.2 ≤ sharedBits a.pos t.path)),
                     prevNode := none } : Walker Node) a
-          (sim_other_fields H ps h _ none w.lastPosition) (Or.inr hd)
+          (sim_other_fields H ps h _ none w.lastPosition) (Or.inr hd) (by
+            intro hr
+            obtain ⟨hsb, hpre⟩ := hfin hr
+            refine ⟨hsb, ?_⟩
+            unfold TW.compactUp at hpre
+            rw [if_neg hse'] at hpre
+            exact hpre)
         exact ⟨w', hw', hs', hsame⟩
 
 end Nomt.Walker
